@@ -76,6 +76,38 @@ PROPS = {
                     corr=["wo", "vars", "nwo"], oracle=[("wo_nf", "spec_nf"), ("vars", "svars")],
                     guards=["render", "toks"], nontrivial=flat_nontrivial)],
     ),
+    "C04": dict(
+        level="proof",
+        modules=["Exmex.Props.C04"],
+        theorems=["Exmex.C04.findVars_sorted", "Exmex.C04.mem_findVars", "Exmex.C04.flat_eval_wrong_arity",
+                  "Exmex.C04.flat_evalRelaxed_surplus", "Exmex.C04.deep_eval_wrong_arity", "Exmex.C04.braced_is_var"],
+        rule="expressions with 0..40 variables (bare ASCII/Greek identifiers, braced arbitrary text incl. spaces, digits, emoji, operator look-alikes), every slice length 0..n+3 on eval / eval_relaxed / eval_vec / eval_iter, flat and deep; plus the flat generator for the variable list; non-trivial = at least 2 distinct variables; distinct by request hash",
+        kinds=[dict(kind="vars", quick=6000, thorough=150000, corr=["vars", "dvars", "ar"],
+                    oracle=[("vars", "svars"), ("dvars", "svars"), ("ar", "sar")], guards=["render", "toks"],
+                    nontrivial=lambda req, A, B: A.get("vars", "").count(",") >= 1),
+               dict(kind="flat", quick=8000, thorough=200000, corr=["vars"], oracle=[("vars", "svars")],
+                    guards=["render", "toks"], nontrivial=flat_nontrivial)],
+    ),
+    "C07": dict(
+        level="proof",
+        modules=["Exmex.Props.C07"],
+        theorems=["Exmex.C07.flat_rejects_frontEnd", "Exmex.C07.deep_rejects_frontEnd", "Exmex.C07.blank_rejected",
+                  "Exmex.C07.trailing_operator_rejected", "Exmex.C07.unbalanced_rejected", "Exmex.C07.adjacent_operands_rejected",
+                  "Exmex.C07.unknown_rejected", "Exmex.C07.flat_count", "Exmex.C07.lexLoop_balance"],
+        rule="well-formed renderings damaged at one point (delete/insert one parenthesis, append a binary operator, extra operand beside an operand, illegal character, blank text) x random tables; FlatEx::parse, parse_wo_compile, DeepEx::parse must all reject; non-trivial = damaged text of at least 3 characters; distinct by request hash",
+        kinds=[dict(kind="damage", quick=30000, thorough=800000, corr=["r"], oracle_const=[("r", "eee")],
+                    nontrivial=lambda req, A, B: len(req.split("\t")[3]) >= 6)],
+    ),
+    "C13": dict(
+        level="proof",
+        modules=["Exmex.Props.C13"],
+        theorems=["Exmex.C13.isNumericText_spec", "Exmex.C13.findOps_sound", "Exmex.C13.findOps_longest",
+                  "Exmex.C13.name_continued_not_matched", "Exmex.C13.exact_name_matched", "Exmex.C13.sign_role", "Exmex.C13.brace_var"],
+        rule="token streams of tokenize_and_analyze (hook) vs the Lean tokenizer: operator/constant names extended and truncated by identifier and non-identifier characters in several left contexts, sign chains, literal spellings over {0,1,.}, braces with arbitrary content, call fragments, token soup; random tables with prefix-related names; plus well-formed renderings (flat kind) whose token stream must equal the canonical tokens of the chain; non-trivial = text of at least 2 characters; distinct by request hash",
+        kinds=[dict(kind="lex", quick=30000, thorough=600000, corr=["toks"], oracle=[], nontrivial=lambda req, A, B: len(req.split("\t")[3]) >= 4),
+               dict(kind="flat", quick=8000, thorough=200000, corr=["wo", "vars"], oracle=[("toksimpl", "stoks")],
+                    guards=["render"], nontrivial=flat_nontrivial)],
+    ),
     "C15": dict(
         level="proof",
         modules=["Exmex.Props.C15"],
